@@ -27,6 +27,22 @@ pub fn run(ctx: &Ctx) -> Outcome {
         acc.merge(a3);
         describe.push_str(&format!("; plus {} seeded random trees x {} seeded random texts of 5-10 characters", rnd.len(), long.len()));
     }
+    // counted repeats with bounds of two and three digits, texts around the bound
+    {
+        let fam = crate::gen::big_count_family(260);
+        let a4 = diff::run_pairs(ctx, "C01", &fam, false, 2_000_000);
+        acc.add("big-count-evaluations", a4.evals);
+        acc.merge(a4);
+        describe.push_str(&format!("; plus {} patterns with counted repeats of 10-256 (a{{n}}, a{{n,}}, [ab]{{2,n}}c, (?:ab){{n}}, (a{{n}})\\1?, \\ba{{n}}\\b, look-around and atomic bodies) x texts of n/10, n-1, n, n+1, 2n repetitions at 5 start offsets", fam.len()));
+    }
+    // wide match state: 3-8 groups in a counted loop that has to be undone
+    {
+        let fam = crate::gen::wide_group_family(ctx.seed, ctx.tier.pick(1_500, 20_000), true);
+        let a5 = diff::run_pairs(ctx, "C01", &fam, false, 2_000_000);
+        acc.add("wide-state-evaluations", a5.evals);
+        acc.merge(a5);
+        describe.push_str(&format!("; plus {} seeded patterns with 3-8 groups inside a counted loop next to an assertion, a failing tail and a fallback alternative x 18 texts of 1-3 repetitions of the loop's text", fam.len()));
+    }
     diff::run_witnesses(ctx, "C01", "F1", &mut acc);
     let mut out = Outcome::new(acc);
     out.distinct_nontrivial = out.acc.distinct;
